@@ -47,7 +47,8 @@ def applicable_classes(fmt):
 def generate(ctx):
     tape = ctx.tape
     max_records = 10 if ctx.tier == "thorough" else 6
-    fd = _c01.gen_file(ctx, "", max_records, format_weights=FORMAT_WEIGHTS, lazy_choices=(None,), allow_mixed_optint=True)
+    fd = _c01.gen_file(ctx, "", max_records, format_weights=FORMAT_WEIGHTS, lazy_choices=(None,), allow_mixed_optint=True,
+                       prefer_mixed_optint=True)
     fmt = T.FORMATS[fd["format"]]
     data = core.unesc(fd["data"])
     classes = applicable_classes(fmt)
@@ -76,6 +77,10 @@ def generate(ctx):
         info["offset"] = nl
     elif klass == "nonnumeric":
         cands = [f for f, k in fmt.fields if k in NUMERIC_KINDS and f in fsp and data[fsp[f][0]:fsp[f][0] + fsp[f][1]] != b"."]
+        # optional columns (score) are drawn three times as often: their parser works on the sub-selection of present
+        # rows, so its error offsets go through one more mapping
+        kinds = dict(fmt.fields)
+        cands = [c for c in cands for _ in range(3 if kinds[c] == "optint" else 1)]
         fname = cands[tape.draw(len(cands), "field")]
         fs_, fl = fsp[fname]
         off = fs_ + tape.draw(fl, "digit")
